@@ -61,7 +61,7 @@ Section C18.
       fds D w' = [] /\ (e = None -> clean D w' /\ wpaths K D s' = []).
   Proof.
     intros s w e s' w' I H.
-    destruct (close_spec K D s w e s' w' I H) as (_ & F & _ & C & _). split; assumption.
+    destruct (close_spec K D s w e s' w' I H) as (_ & F & _ & _ & C & _). split; assumption.
   Qed.
 End C18.
 Print Assumptions C18_no_leak_partial.
@@ -76,7 +76,7 @@ Definition zkey (x : Z * Z) : res Z := Ok (fst x).
 Definition zenc (x : Z * Z) : Z * Z := x.
 Definition zdec (x : Z * Z) : res (Z * Z) := Ok x.
 Definition demo_ops : list (op (Z * Z)) :=
-  [OpAdd _ (3, 0); OpAdd _ (1, 1); OpAdd _ (2, 2); OpAdd _ (5, 3); OpAdd _ (4, 4); OpIter _ 7].
+  [OpAdd _ (3, 0); OpAdd _ (1, 1); OpAdd _ (2, 2); OpAdd _ (5, 3); OpAdd _ (4, 4); OpIter _ 7 false].
 Definition demo (f : option (nat * bool)) :=
   let '(obs, cl, w) := w_workload (Z * Z) Z (Z * Z) zkey Z.ltb zenc zdec leftmost_min false 2 true true demo_ops f in
   (map (fun o => (o_out _ o, map fst (o_items _ o), Z.of_nat (o_files _ o), Z.of_nat (o_open _ o))) obs, cl,
@@ -93,7 +93,7 @@ Proof. vm_compute. reflexivity. Qed.
 Example demo_fault_in_merge_read :
   demo (Some (30%nat, false)) =
   ([(OOk, [], 0, 0); (OOk, [], 1, 1); (OOk, [], 1, 1); (OOk, [], 2, 2); (OOk, [], 2, 2);
-    (ORaise (OSError false), [1], 3, 3)], [None], (0, 0, 37), Some CRead).
+    (ORaise (OSError false), [1], 3, 3)], [None], (0, 0, 40), Some CRead).
 Proof. vm_compute. reflexivity. Qed.
 Example demo_fault_in_os_close :
   snd (fst (fst (demo (Some (38%nat, false))))) = [Some (OSError false); None].
@@ -149,7 +149,7 @@ Section C18_faults.
       w_step A K D keyf lt enc dec pick_min eof s o w = (out, ys, s', w') ->
       fires D w w' eno ->
       out = ORaise (OSError eno) \/
-      (eof = true /\ (exists p, o = OpIter A p) /\ out = ORaise PlainException) \/
+      (eof = true /\ (exists p k, o = OpIter A p k) /\ out = ORaise PlainException) \/
       (eno = true /\ o = OpClose A /\ hit D w' = Some COsRemove /\ out = OOk).
   Proof.
     intros c al f s w o out ys s' w' eno R.
@@ -285,4 +285,52 @@ Definition demo_eof :=
 Example demo_truncated_spill_file_surfaces :
   demo_eof = ([(OOk, []); (OOk, []); (OOk, []); (OOk, []); (OOk, []); (ORaise PlainException, [1])],
               [None], (0, 0), Some CRead).
+Proof. vm_compute. reflexivity. Qed.
+
+(* ======================================================================
+   Third round (a9919d2, aa179b6): Sorter.__iter__ registers its merging
+   iterator and closes it in a finally clause; Sorter.close() first closes
+   every registered one, and closing a merging iterator attempts every
+   reader.  The reference-counting premise is gone for a generator the caller
+   still holds: after close() no read handle is open, kept generators or not.
+   ====================================================================== *)
+Section C18_kept_generators.
+  Variables A K D : Type.
+  Variable keyf : A -> res K.
+  Variable lt : K -> K -> bool.
+  Variable enc : A -> D.
+  Variable dec : D -> res A.
+  Variable pick_min : forall X : Type, (X -> X -> bool) -> list X -> option (X * list X).
+  Variable eof : bool.
+
+  (* any history - including iterations pulled a few times and then KEPT by the
+     caller (OpIter p true) - any fault schedule: one call of close(), whether
+     it raises or not, leaves no read handle and no descriptor open; the
+     generators the caller still holds have nothing left open *)
+  Theorem C18_close_with_generators_alive :
+    forall (c : nat) (al : bool) (f : option (nat * bool)) (s : wsorter K D) (w : world D) e s' w',
+      reachable A K D keyf lt enc dec pick_min eof c al f s w ->
+      w_close K D s w = (e, s', w') ->
+      rhandles D w' = [] /\ fds D w' = [] /\ whandles D w' = [] /\ wmerging K D s' = [].
+  Proof.
+    intros c al f s w e s' w' R H.
+    pose proof (reachable_WI2 A K D keyf lt enc dec pick_min eof c al f s w R) as (I & _).
+    destruct (close_spec K D s w e s' w' I H) as ((_ & _ & _ & Wh & _) & Fd & Rh & _).
+    split; [exact Rh |]. split; [exact Fd |]. split; [exact Wh |].
+    unfold w_close in H. destruct (w_close_merging D (wmerging K D s) w None) as [e0 w0].
+    destruct (w_close_loop D (wpaths K D s) (wfds K D s) w0 e0 []) as [[e1 r1] w1]. inversion H; reflexivity.
+  Qed.
+End C18_kept_generators.
+Print Assumptions C18_close_with_generators_alive.
+
+(* it = iter(s); next(it); next(it) with `it` kept, then close() whose first
+   reader close fails (call 32): close() raises, every reader has been
+   attempted, nothing is open although the generator is still held *)
+Definition demo_kept :=
+  let '(obs, cl, w) := w_workload (Z * Z) Z (Z * Z) zkey Z.ltb zenc zdec leftmost_min false 2 true false
+        [OpAdd _ (3, 0); OpAdd _ (1, 1); OpAdd _ (2, 2); OpAdd _ (5, 3); OpAdd _ (4, 4); OpIter _ 2 true]
+        (Some (32%nat, false)) in
+  (map (fun o => Z.of_nat (o_open _ o)) obs, cl, (Z.of_nat (length (files _ w)), Z.of_nat (n_open _ w)), hit _ w).
+Example demo_kept_generator_close_fails_once :
+  demo_kept = ([0; 1; 1; 2; 2; 6], [Some (OSError false); None], (0, 0), Some CCloseR).
 Proof. vm_compute. reflexivity. Qed.
